@@ -74,11 +74,27 @@ def py_int_of_str(I, node, s, st):
             yield st3, I.exc('ValueError', node)
 
 
-def int_to_str(x):
+_INT_AXIOM = []
+
+
+def int_str_axiom():
+    """int(str(n)) == n for n >= 0 (python fact; instantiated where str(n) occurs)"""
+    if not _INT_AXIOM:
+        n = z3.Int('ax!n')
+        _INT_AXIOM.append(z3.ForAll([n], z3.Implies(n >= 0, z3.And(PYINT_OK(z3.IntToStr(n)), PYINT_VAL(z3.IntToStr(n)) == n)),
+                                    patterns=[z3.IntToStr(n)]))
+    return _INT_AXIOM[0]
+
+
+def int_to_str(x, I=None):
     """SStr for str(int)"""
     xc = SInt(x).conc()
     if xc is not None:
         return SStr.const(str(xc))
+    if I is not None and 'int-str' not in I.axiom_keys:
+        I.axiom_keys.add('int-str')
+        I.axioms.append(int_str_axiom())
+        I.trusted.add('axiom: int(str(n)) == n for n >= 0')
     return SStr(expr=z3.If(x < 0, z3.Concat(z3.StringVal('-'), z3.IntToStr(-x)), z3.IntToStr(x)))
 
 
@@ -124,7 +140,7 @@ def to_str_value(I, node, v, st):
     if isinstance(v, SStr):
         yield st, v
     elif isinstance(v, SInt):
-        yield st, int_to_str(v.e)
+        yield st, int_to_str(v.e, I)
     elif isinstance(v, SBool):
         c = v.conc()
         if c is None:
@@ -205,7 +221,7 @@ def _assemble(I, node, pieces, st, acc=None):
         elif width:
             raise EngineLimit('space padded int format')
         else:
-            gen = [(st, int_to_str(x))]
+            gen = [(st, int_to_str(x, I))]
         for st1, s in gen:
             yield from _assemble(I, node, pieces[1:], st1, s_concat(acc, s))
         return
@@ -469,6 +485,8 @@ def call_builtin(I, node, f, args, kwargs, st):
                 yield st, SInt(len(o.items))
             elif isinstance(o, HSeq):
                 yield st, SInt(z3.Length(o.e))
+            elif isinstance(o, HObj) and o.cls.startswith('opaque:'):
+                yield from I.call_opaque(node, SFunc('opaque', o.cls[7:] + '.__len__', selfv=v), [], {}, st)
             elif isinstance(o, HObj):
                 fm = I.find_method(o.cls, '__len__')
                 if fm is None:
